@@ -28,9 +28,10 @@ def params(draw, tier):
          "seed": draw(st.integers(0, 2 ** 32 - 1)),
          # 1e-4..3e-4 spacings split the four-fold vertices of a lattice by about the rounding unit (0.001)
          "jitter": draw(st.sampled_from([0.0, 1e-6, 1e-4, 2e-4, 3e-4, 1e-3, 0.1, 0.3])),
-         "spacing": draw(st.sampled_from([5.0, 10.0, 50.0, 7.3])),
+         "spacing": draw(st.sampled_from([5.0, 10.0, 50.0, 7.3, 62.0])),
          "ring": draw(st.booleans()),
-         "maxd": draw(st.sampled_from(["inf", "inf", "loose", "tight"])),
+         # 'default': max_distance left out of the call (documented default 75 units)
+         "maxd": draw(st.sampled_from(["inf", "inf", "loose", "tight", "default"])),
          "offset": [draw(st.integers(-50, 50)) * 1.0, draw(st.integers(-50, 50)) * 1.0]}
     return p
 
@@ -92,8 +93,11 @@ def check_case(p, ctx):
     if p["ring"]:
         cen = cen + [(float(a), float(b)) for a, b in call(fs.tessellation.add_voronoi_centers, cen)]
     s = p["spacing"]
-    maxd = {"inf": 1e9, "loose": 6 * s, "tight": 1.6 * s}[p["maxd"]]
-    v, e, c = call(fs.tessellation.create_lattice_elements, cen, max_distance=maxd)
+    maxd = {"inf": 1e9, "loose": 6 * s, "tight": 1.6 * s, "default": 75}[p["maxd"]]
+    if p["maxd"] == "default":
+        v, e, c = call(fs.tessellation.create_lattice_elements, cen)
+    else:
+        v, e, c = call(fs.tessellation.create_lattice_elements, cen, max_distance=maxd)
     V, E, C = call(fs.tessellation.create_lattice, v, e, c)
     with np.errstate(all="ignore"):
         vor = Voronoi(np.array(cen))
